@@ -2,34 +2,13 @@ package main
 
 import (
 	"fmt"
-	"os"
 
 	"github.com/itchyny/gojq"
 )
 
 func main() {
-	for _, src := range os.Args[1:] {
+	for _, src := range []string{"1\x00+++", ".a\x00]]]", "\x00", "1 \x00", "\"a\x00b\"", "1 # c \x00 \n + 2"} {
 		q, err := gojq.Parse(src)
-		if err != nil {
-			fmt.Println("parse", err)
-			continue
-		}
-		c, err := gojq.Compile(q)
-		if err != nil {
-			fmt.Println("compile", err)
-			continue
-		}
-		func() {
-			defer func() {
-				if r := recover(); r != nil {
-					fmt.Println("  PANIC", r)
-				}
-			}()
-			it := c.Run(nil)
-			for i := 0; i < 6; i++ {
-				v, ok := it.Next()
-				fmt.Printf("  %q next %d: %v %v\n", src, i, v, ok)
-			}
-		}()
+		fmt.Printf("%q => %v %v\n", src, q, err)
 	}
 }
